@@ -327,6 +327,15 @@ class SeqLen:
         if isinstance(e, ast.Attribute):
             return self._attr_len(e.attr, depth)
         if isinstance(e, ast.Subscript) and isinstance(e.slice, ast.Slice):
+            sl = e.slice
+            if sl.step is None:
+                base = self.min_len(f, e.value, use, depth + 1)
+                lo = sl.lower.value if isinstance(sl.lower, ast.Constant) and isinstance(sl.lower.value, int) else (0 if sl.lower is None else None)
+                hi = sl.upper.value if isinstance(sl.upper, ast.Constant) and isinstance(sl.upper.value, int) else (None if sl.upper is None else -1)
+                if lo is not None and lo >= 0 and hi is None:
+                    return max(0, base - lo)  # x[k:] of at least `base` elements
+                if lo is not None and lo >= 0 and isinstance(hi, int) and hi >= 0:
+                    return max(0, min(base, hi) - lo)
             return 0
         try:
             v = self.consts.eval_in(f, e)
